@@ -615,7 +615,11 @@ def block(ctx: Ctx, stmts, ret_wrap, ind="  ") -> str:
     if m is not None:
         if m not in (set(getattr(ctx, "defined", set())) | {p for p, _ in ctx.all_params}):
             raise Untranslatable(f"mutation of {m} before its definition")
-        return mutation(ctx, s, m) + f"\n{ind}" + block(ctx, rest, ret_wrap, ind)
+        guard = ""
+        if getattr(ctx, "strict_remove", False) and isinstance(s, ast.Expr) and isinstance(s.value, ast.Call) and s.value.func.attr == "remove":
+            # list.remove(x) raises ValueError when x is absent
+            guard = f'if !(List.elem {expr(ctx, s.value.args[0])} {li(m)}) then {ctx.raise_wrap("ValueError")} else\n{ind}'
+        return guard + mutation(ctx, s, m) + f"\n{ind}" + block(ctx, rest, ret_wrap, ind)
     if is_log(s) or (isinstance(s, ast.Expr) and isinstance(s.value, ast.Constant)) or isinstance(s, ast.Pass):
         return block(ctx, rest, ret_wrap, ind)
     if isinstance(s, ast.Assert):
@@ -640,6 +644,32 @@ def block(ctx: Ctx, stmts, ret_wrap, ind="  ") -> str:
         if isinstance(s, ast.Assign) and len(s.targets) != 1:
             raise Untranslatable("chained assignment")
         tgt = s.targets[0] if isinstance(s, ast.Assign) else s.target
+        if lookup_const(ctx, s.value) is not None and (lookup_type(ctx, s.value) or "").startswith("Except "):
+            # the callee can raise: `x = f(..)` becomes a match on its Except result, the exception propagates
+            if not ctx.raises:
+                raise Untranslatable("call of a raising function in a function declared non-raising")
+            inner = (lookup_type(ctx, s.value) or "")[len("Except "):].strip()
+            if inner.startswith("(") and inner.endswith(")"):
+                inner = inner[1:-1]
+            if isinstance(tgt, ast.Name):
+                ctx.types[tgt.id] = inner
+                if hasattr(ctx, "defined"):
+                    ctx.defined.add(tgt.id)
+                pat = li(tgt.id)
+            elif isinstance(tgt, ast.Tuple) and all(isinstance(t_, ast.Name) for t_ in tgt.elts):
+                parts = split_prod(inner, len(tgt.elts))
+                if parts is None:
+                    raise Untranslatable(f"tuple assignment from a raising call of type {inner!r}")
+                for t_, p_ in zip(tgt.elts, parts):
+                    ctx.types[t_.id] = p_[1:-1] if p_.startswith("(") and p_.endswith(")") else p_
+                    if hasattr(ctx, "defined"):
+                        ctx.defined.add(t_.id)
+                pat = "(" + ", ".join(li(t_.id) for t_ in tgt.elts) + ")"
+            else:
+                raise Untranslatable("target of a raising call")
+            reraise = ctx.raise_wrap("@@").replace('"@@"', "e_")
+            return (f"match {lookup_const(ctx, s.value)} with\n{ind}| .error e_ => {reraise}\n{ind}| .ok {pat} =>\n{ind}  "
+                    + block(ctx, rest, ret_wrap, ind + "  "))
         if isinstance(tgt, ast.Tuple) and not isinstance(s.value, ast.Tuple) and lookup_const(ctx, s.value) is not None \
                 and all(isinstance(t_, ast.Name) for t_ in tgt.elts):
             vt = lookup_type(ctx, s.value) or ""
@@ -982,6 +1012,7 @@ def for_loop(ctx, node, rest, ret_wrap, ind):
     sub.join = getattr(ctx, "join", "scalar")
     sub.raisers = getattr(ctx, "raisers", {})
     sub.nat_sub = getattr(ctx, "nat_sub", False)
+    sub.strict_remove = getattr(ctx, "strict_remove", False)
     sub.defined = set(getattr(ctx, "defined", set())) | set(tgt_types)
     sub.ctl = {"continue": lambda: rec.strip(), "break": lambda: done}
     sub.fall = lambda: rec.strip()
@@ -1092,6 +1123,7 @@ def translate_function(
     join="scalar",
     raisers=None,
     nat_sub=False,
+    strict_remove=False,
 ):
     """Translate function `qual` (or a statement slice of it) into one Lean definition."""
     tree = ast.parse(source)
@@ -1127,6 +1159,7 @@ def translate_function(
     ctx.join = join
     ctx.raisers = {norm(k): v for k, v in (raisers or {}).items()}
     ctx.nat_sub = nat_sub
+    ctx.strict_remove = strict_remove
     body = block(ctx, stmts, wrap)
     sig = " ".join((f"{{{k[1:-1]} : {v}}}" if k.startswith("{") else k if k.startswith("[") else f"({li(k)} : {v})") for k, v in list(extra_params) + list(params.items()))
     return "\n".join(ctx.aux) + ("\n" if ctx.aux else "") + f"def {lean_name} {sig} : {rty} :=\n  {body}\n"
